@@ -1,15 +1,16 @@
 import Hgxv.Proofs.C05Spec
 /-! `WF` is an invariant of every history of public mutators; slots of the state array are independent
 (core Lean only). -/
-namespace AL
+namespace C05AL
+open AL
 variable {α β : Type} [DecidableEq α]
 
-theorem mem_set (l : List (α × β)) (k : α) (v : β) (e : α × β) (h : e ∈ set l k v) : e = (k, v) ∨ e ∈ l := by
+theorem mem_set (l : List (α × β)) (k : α) (v : β) (e : α × β) (h : e ∈ AL.set l k v) : e = (k, v) ∨ e ∈ l := by
   induction l with
-  | nil => simp [set] at h; exact .inl h
-  | cons hd t ih => grind [set]
+  | nil => simp [AL.set] at h; exact .inl h
+  | cons hd t ih => grind [AL.set]
 
-end AL
+end C05AL
 
 namespace C05
 variable {κ : Type} [DecidableEq κ] [Keyed κ]
@@ -45,19 +46,19 @@ theorem wf_addNode (c : Content κ) (n : Node) (md : Meta) (h : WF c) : WF (addN
 theorem wf_setEdge (c : Content κ) (k : κ) (v : W × Meta) (h : WF c) (hk : k ∈ keysOf c)
     (hu : c.weighted = false → v.1 = unitW) : WF { c with edges := AL.set c.edges k v } := by
   have hkeys : AL.keys (AL.set c.edges k v) = AL.keys c.edges :=
-    AL.keys_set_of_mem _ _ _ ((AL.mem_keys_iff _ _).1 hk)
+    AL.keys_set_of_mem _ _ _ ((C05AL.mem_keys_iff _ _).1 hk)
   refine ⟨h.nodes_nodup, ?_, ?_, ?_⟩
   · simp only [keysOf, hkeys]; exact h.keys_nodup
   · intro k' hk'; simp only [keysOf, hkeys] at hk'; exact h.members_in k' hk'
   · intro hw e he
-    rcases AL.mem_set _ _ _ _ he with h1 | h1
+    rcases C05AL.mem_set _ _ _ _ he with h1 | h1
     · subst h1; exact hu hw
     · exact h.unit hw e h1
 
 theorem wf_setNode (c : Content κ) (n : Node) (md : Meta) (h : WF c) (hn : n ∈ nodesOf c) :
     WF { c with nodes := AL.set c.nodes n md } := by
   have hkeys : AL.keys (AL.set c.nodes n md) = AL.keys c.nodes :=
-    AL.keys_set_of_mem _ _ _ ((AL.mem_keys_iff _ _).1 hn)
+    AL.keys_set_of_mem _ _ _ ((C05AL.mem_keys_iff _ _).1 hn)
   refine ⟨?_, h.keys_nodup, ?_, h.unit⟩
   · simp only [nodesOf, hkeys]; exact h.nodes_nodup
   · intro k hk m hm; simp only [nodesOf, hkeys]; exact h.members_in k hk m hm
@@ -69,14 +70,14 @@ theorem wf_addEdgeCore (c : Content κ) (k : κ) (w : W) (md : Meta) (h : WF c) 
     have hk : k ∉ AL.keys c.edges := (AL.get?_eq_none_iff _ _).1 hg
     simp only [addEdgeNew, touchAll]
     refine ⟨nodup_keys_touchL _ _ h.nodes_nodup, ?_, ?_, ?_⟩
-    · simp only [keysOf, AL.keys_append, List.nodup_append]
+    · simp only [keysOf, C05AL.keys_append, List.nodup_append]
       refine ⟨h.keys_nodup, by simp [AL.keys], ?_⟩
       intro a ha b hb
       simp only [AL.keys, List.map_cons, List.map_nil, List.mem_singleton] at hb
       subst hb; intro e; subst e; exact hk ha
     · intro k' hk' m hm
       simp only [nodesOf, mem_keys_touchL]
-      simp only [keysOf, AL.keys_append, List.mem_append] at hk'
+      simp only [keysOf, C05AL.keys_append, List.mem_append] at hk'
       rcases hk' with h1 | h1
       · exact .inl (h.members_in k' h1 m hm)
       · simp only [AL.keys, List.map_cons, List.map_nil, List.mem_singleton] at h1
@@ -88,10 +89,10 @@ theorem wf_addEdgeCore (c : Content κ) (k : κ) (w : W) (md : Meta) (h : WF c) 
       · subst h1; simp only at hw; simp [hw]
   | some v =>
     simp only [addEdgeOld]
-    apply wf_setEdge c k _ h ((AL.mem_keys_iff _ _).2 (by simp [hg]))
+    apply wf_setEdge c k _ h ((C05AL.mem_keys_iff _ _).2 (by simp [hg]))
     intro hw
     simp only [hw, Bool.false_eq_true, ↓reduceIte]
-    exact h.unit hw (k, v) (AL.mem_of_get? _ _ _ hg)
+    exact h.unit hw (k, v) (C05AL.mem_of_get? _ _ _ hg)
 
 theorem wf_apply? (c c' : Content κ) (op : Op κ) (h : WF c) (e : apply? c op = some c') : WF c' := by
   cases op with
@@ -105,11 +106,11 @@ theorem wf_apply? (c c' : Content κ) (op : Op κ) (h : WF c) (e : apply? c op =
     simp only [apply?, removeEdge] at e
     split at e
     · cases e
-      refine ⟨h.nodes_nodup, AL.keys_erase_nodup _ _ h.keys_nodup, ?_, ?_⟩
+      refine ⟨h.nodes_nodup, C05AL.keys_erase_nodup _ _ h.keys_nodup, ?_, ?_⟩
       · intro k' hk'
         simp only [keysOf, AL.keys_erase_perm] at hk'
         exact h.members_in k' (List.mem_of_mem_erase hk')
-      · intro hw e he; exact h.unit hw e (AL.mem_erase _ _ _ he)
+      · intro hw e he; exact h.unit hw e (C05AL.mem_erase _ _ _ he)
     · cases e
   | setWeight k w =>
     simp only [apply?, setWeight] at e
@@ -120,14 +121,14 @@ theorem wf_apply? (c c' : Content κ) (op : Op κ) (h : WF c) (e : apply? c op =
       | none => simp [hg] at e
       | some v =>
         simp only [hg, Option.some.injEq] at e; subst e
-        apply wf_setEdge c k _ h ((AL.mem_keys_iff _ _).2 (by simp [hg]))
+        apply wf_setEdge c k _ h ((C05AL.mem_keys_iff _ _).2 (by simp [hg]))
         intro hw
         simp only [hw, Bool.not_false, Bool.true_and, bne_iff_ne, ne_eq, Decidable.not_not] at hok
         exact hok
   | setNodeMeta n md =>
     simp only [apply?, setNodeMeta] at e
     split at e
-    · next hh => cases e; exact wf_setNode c n md h ((AL.has_iff _ _).1 hh)
+    · next hh => cases e; exact wf_setNode c n md h ((C05AL.has_iff _ _).1 hh)
     · cases e
   | setEdgeMeta k md =>
     simp only [apply?, setEdgeMeta] at e
@@ -135,23 +136,23 @@ theorem wf_apply? (c c' : Content κ) (op : Op κ) (h : WF c) (e : apply? c op =
     | none => simp [hg] at e
     | some v =>
       simp only [hg, Option.some.injEq] at e; subst e
-      apply wf_setEdge c k _ h ((AL.mem_keys_iff _ _).2 (by simp [hg]))
-      intro hw; exact h.unit hw (k, v) (AL.mem_of_get? _ _ _ hg)
+      apply wf_setEdge c k _ h ((C05AL.mem_keys_iff _ _).2 (by simp [hg]))
+      intro hw; exact h.unit hw (k, v) (C05AL.mem_of_get? _ _ _ hg)
   | setNodeAttr n a v =>
     simp only [apply?, setNodeAttr] at e
     cases hg : AL.get? c.nodes n with
     | none => simp [hg] at e
     | some md =>
       simp only [hg, Option.some.injEq] at e; subst e
-      exact wf_setNode c n _ h ((AL.mem_keys_iff _ _).2 (by simp [hg]))
+      exact wf_setNode c n _ h ((C05AL.mem_keys_iff _ _).2 (by simp [hg]))
   | setEdgeAttr k a v =>
     simp only [apply?, setEdgeAttr] at e
     cases hg : AL.get? c.edges k with
     | none => simp [hg] at e
     | some x =>
       simp only [hg, Option.some.injEq] at e; subst e
-      apply wf_setEdge c k _ h ((AL.mem_keys_iff _ _).2 (by simp [hg]))
-      intro hw; exact h.unit hw (k, x) (AL.mem_of_get? _ _ _ hg)
+      apply wf_setEdge c k _ h ((C05AL.mem_keys_iff _ _).2 (by simp [hg]))
+      intro hw; exact h.unit hw (k, x) (C05AL.mem_of_get? _ _ _ hg)
 
 theorem wf_step (c : Content κ) (op : Op κ) (h : WF c) : WF (step c op) := by
   unfold step
